@@ -12,7 +12,7 @@ RULE = ("histories of OSCORE requests (genuine / byte-identical replay / forged 
         "one acceptance and one rejection (recipient) or at least one Partial IV and one save "
         "(sender); distinct = distinct case line")
 
-WRAPS = ["coap_socket_send"]
+WRAPS = ["coap_socket_send", "coap_malloc_type"]
 
 
 def nontrivial(line, out):
@@ -193,7 +193,10 @@ def main(run):
         spec_diff = False
         if ln.startswith("rpd") and not fails and "NOGEN" not in co and spec.get(i) != "-":
             sv = [o.split(",")[0] for o in co.split()]
-            spec_diff = spec.get(i, "").split() != sv
+            toks = [x.lstrip("2") for x in ln.split()[5:]]
+            # A tokens (allocation failure somewhere): only "not delivered" is compared
+            spv = [("*" if (tk[0] == "A" and v != "A") else v) for tk, v in zip(toks, spec.get(i, "").split())]
+            spec_diff = spv != sv
         if fails:
             nviol += 1
             if nviol <= 3:
